@@ -401,7 +401,7 @@ fn execute_history(run: &Run, opts: &ExecOpts) -> Outcome {
                     let mut fresh: Vec<FreshResult> = vec![];
                     for s in &seeds {
                         cx.out.stats.fresh_builds += 2;
-                        let v = Variant { hash_seed: *s, preregister: vec![], repeat: false, diag_first: *diag_first };
+                        let v = Variant { hash_seed: *s, preregister: vec![], repeat: false, diag_first: *diag_first, root: None };
                         let fr = fresh_process(&fs_now, &entry, &run.project.settings, &v);
                         cx.log_triple(&fr.first);
                         fresh.push(fr);
